@@ -18,7 +18,7 @@ RULE = (
     "All block-occupancy vectors (first/last cell 1..3 points incl. the pin, other cells 0..3; thorough 0..4) of the layouts 1x2..1x5, "
     "2x2, 2x3 (thorough adds 1x6, 1x7, 2x4) realised as points strictly inside their cells; BlockKFold: n_splits = 2..#occupied (and "
     "#occupied+1, which must raise) x shuffle x balance x seeds 0..3 x {shape, spacing} x feature matrix {float C-ordered, integer dtype, Fortran-ordered}; BlockShuffleSplit (layouts with <= 4 cells; "
-    "thorough <= 6): test_size {0.1,0.25,0.5,0.75,2} x train_size {None,0.5} x balancing {1,2,3} x n_splits {1,2,3} x seeds 0..3. "
+    "thorough <= 6): test_size {0.1,0.25,0.5,0.75,2} x train_size {None,0.5} plus explicit test_size=None with train_size {0.5,0.75,2,None} x balancing {1,2,3} x n_splits {1,2,3} x seeds 0..3. "
     "Every split is checked against block membership known by construction. Non-trivial: >= 3 occupied blocks with unequal populations."
     " Added axes: integer and Fortran feature matrices, attribute route, sparse 25^2 / 40^2 / 60^2 block grids, non-square blocks via spacing=(s_n, s_e), blocks of 2^-10 at coordinates of 2^20, populations (1,1,1,1,3,8) in every order and all vectors over {1, 8}; a fall-back is accepted only when the documented balancing rule (own exact model) fails."
 )
@@ -251,8 +251,9 @@ def run(case, rec):
     orig = ms.ShuffleSplit
     ms.ShuffleSplit = Recording
     try:
-        for test_size in (0.1, 0.25, 0.5, 0.75, 2):
-            for train_size in (None, 0.5):
+        # (None, ...) : test_size=None passed EXPLICITLY - the test blocks are then the complement of the training blocks (round 8, seed C11-16)
+        for test_size, train_size in [(t_, r_) for t_ in (0.1, 0.25, 0.5, 0.75, 2) for r_ in (None, 0.5)] + [(None, 0.5), (None, 0.75), (None, 2), (None, None)]:
+            if True:
                 # reference number of blocks per side from scikit-learn's public behaviour
                 try:
                     rtr, rte = next(SkShuffle(n_splits=1, test_size=test_size, train_size=train_size, random_state=0).split(np.arange(nocc)))
